@@ -216,7 +216,8 @@ def rand_keys(rng, n):
             keys.append(127)
         elif r < 0.86:
             # a command
-            cmd = rng.choice(["open http://dead.invalid/y", "feed main", "feed nosuch", "bogus arg", "open", "feed", "", "open  x", "fé x"])
+            cmd = rng.choice(["open http://dead.invalid/y", "feed main", "feed nosuch", "bogus arg", "open", "feed", "", "open  x", "fé x",
+                              "open /etc/passwd", "open ./", "open /nonexistent/x.json", "open ../", "open @", "open !", "open @x"])
             keys.append(ord(":"))
             keys += [b for b in cmd.encode("latin-1", "replace")]
             keys.append(rng.choice((13, 13, 27)))
